@@ -1192,3 +1192,88 @@ func checkEncodeBufferAfterFailure(c *Check, P *CProgram, r *Rule) {
 		r.AddAt(Undecided, "C callers of utf8_char_to_string", "-", "no caller with a local buffer and a stored result found")
 	}
 }
+
+// ---------- R12.10: DDP indices of a text are bounded by a number of code points ----------
+
+// ddp_string_slice receives two DDP indices (code-point positions). They are clamped to 1..n; n has to be the number of code
+// points of the text. With a number of BYTES (cap-1, strlen) an index between the two counts survives the clamp and the walk
+// runs into the terminator: `t im Bereich von 5 bis 9` on "aä€😀" yields "" instead of "😀". Decided on the upper bound of
+// every call of the clamp helper (three parameters, first compared with the second by < and with the third by >) in the
+// function, looked through a local that is initialised once.
+func checkSliceBoundIsCodePoints(c *Check, P *CProgram, r *Rule) {
+	f := P.Funcs["ddp_string_slice"]
+	if f == nil || f.Body == nil {
+		r.AddAt(Undecided, "C ddp_string_slice", "-", "function not found")
+		return
+	}
+	isClamp := func(name string) bool {
+		g := P.Funcs[name]
+		if g == nil || g.Body == nil {
+			return false
+		}
+		gp := cParamNames(g)
+		if len(gp) != 3 {
+			return false
+		}
+		lo, hi := false, false
+		g.Body.walk(func(m *CNode) bool {
+			if m.Kind == "BinaryOperator" && len(m.Inner) == 2 {
+				l, rr := cstrip(m.Inner[0]).text(), cstrip(m.Inner[1]).text()
+				if (m.Opcode == "<" && rr == gp[1]) || (m.Opcode == ">" && l == gp[1]) {
+					lo = true
+				}
+				if (m.Opcode == ">" && rr == gp[2]) || (m.Opcode == "<" && l == gp[2]) {
+					hi = true
+				}
+			}
+			return true
+		})
+		return lo && hi
+	}
+	localInit := func(name string) *CNode {
+		var init *CNode
+		n := 0
+		f.Body.walk(func(m *CNode) bool {
+			if m.Kind == "VarDecl" && m.Name == name && len(m.Inner) > 0 {
+				init = m.Inner[len(m.Inner)-1]
+				n++
+			}
+			if m.Kind == "BinaryOperator" && m.Opcode == "=" && len(m.Inner) == 2 && cstrip(m.Inner[0]).text() == name {
+				n++
+			}
+			return true
+		})
+		if n == 1 {
+			return init
+		}
+		return nil
+	}
+	found := 0
+	f.Body.walk(func(m *CNode) bool {
+		if m.Kind != "CallExpr" || !isClamp(m.calleeName()) {
+			return true
+		}
+		a := m.args()
+		if len(a) != 3 {
+			return true
+		}
+		found++
+		bound := cstrip(a[2])
+		if bound.Kind == "DeclRefExpr" {
+			if in := localInit(bound.text()); in != nil {
+				bound = cstrip(in)
+			}
+		}
+		pos := fmt.Sprintf("%s:%d", f.Unit, m.line)
+		key := fmt.Sprintf("C ddp_string_slice|upper bound of the clamp of %s", cstrip(a[0]).text())
+		if cByteLength(P, bound, 0) {
+			r.AddAt(Bad, key, pos, "the index is clamped to "+bound.text()+", a number of bytes: for a text with multi-byte characters an index between the number of code points and the number of bytes is not clamped, the walk ends at the terminator and the slice is empty (or the crossed-bounds error is raised) instead of ending at the last character")
+		} else {
+			r.AddAt(OK, key, pos, "the upper bound ("+bound.text()+") is not a byte count of the text")
+		}
+		return true
+	})
+	if found == 0 {
+		r.AddAt(Undecided, "C ddp_string_slice|clamp calls", f.Pos(), "no call of a clamp helper found in the text slice")
+	}
+}
